@@ -125,6 +125,32 @@ Theorem C04_replace_list_current_at_load : forall q p l0 es os fin j b o,
 Proof. exact replace_choice_current_at_load. Qed.
 Print Assumptions C04_replace_list_current_at_load.
 
+(** a retried request: every attempt loads the pool's balancer immediately before choosing
+    ([attempt g d k] = [CLoad g; CChoose g d k], pool.go doHandle), so it selects from the list
+    that is current at that moment - the last replacement that precedes the attempt, whatever
+    happened while earlier attempts were in flight *)
+Theorem C04_attempt_uses_current_list : forall q p l0 es os fin j g d k b o,
+  crun q p (cinit l0) es = (os, fin) ->
+  nth_error es j = Some (CLoad g) ->
+  nth_error es (S j) = Some (CChoose g d k) ->
+  nth_error os (S j) = Some (Some (b, o)) ->
+  b = List.length (replaced (firstn j es)) /\
+  exists c, o = choose q p (last (replaced (firstn j es)) l0) {| tk := c; dr := d; ky := k |}.
+Proof. exact attempt_uses_current_list. Qed.
+Print Assumptions C04_attempt_uses_current_list.
+
+(** service discovery: the initial listing, the watcher's priming event and every later event are
+    complete reports applied in order of delivery; after any sequence of reports the pool's list is
+    the tagged instances of the LAST report (else the static list), none: the static list *)
+Theorem C04_watch_last_report : forall static tags reports,
+  watch_list static tags reports =
+  match reports with
+  | [] => static
+  | _ => pool_list static (tagged tags (last reports []))
+  end.
+Proof. exact watch_list_last. Qed.
+Print Assumptions C04_watch_last_report.
+
 (** the decidable checkers applied to the implementation's observables raise no false alarm:
     the index sequence of any k contiguous tickets passes [balanced] (sequential groups) and the
     closed-form counts pass [balanced_counts] (concurrent group) *)
@@ -153,6 +179,12 @@ Example C04_nonvacuous_hash :
   choose ideal IPHash [ {| s_url := "a"; s_w := 0 |}; {| s_url := "b"; s_w := 0 |}; {| s_url := "c"; s_w := 0 |} ]
          {| tk := 0; dr := 0; ky := "10.0.0.1" |} = Chosen (4250619169 mod 3).
 Proof. vm_compute. split; reflexivity. Qed.
+
+Example C04_nonvacuous_retry :
+  let a := {| s_url := "a"; s_w := 0 |} in let b := {| s_url := "b"; s_w := 0 |} in
+  fst (crun ideal RoundRobin (cinit [a]) (attempt 1 0 "" ++ [CReplace [b]] ++ attempt 1 0 "" ++ attempt 1 0 ""))
+  = [None; Some (0%nat, Chosen 0); None; None; Some (1%nat, Chosen 0); None; Some (1%nat, Chosen 0)].
+Proof. vm_compute. reflexivity. Qed.
 
 Example C04_nonvacuous_replace :
   let a := {| s_url := "a"; s_w := 0 |} in let b := {| s_url := "b"; s_w := 0 |} in
